@@ -381,8 +381,13 @@ def _free_var_format(val: object) -> 'FormatBound':
                 return SetFormat.from_value(NEG_ZERO)
             return SetFormat.from_value(val.as_rational())
         case RealFloat():
+            if val.is_zero() and val.s:
+                return SetFormat.from_value(NEG_ZERO)
             return SetFormat.from_value(Fraction(val))
         case int() | float():
+            # a Python `-0.0` is a negative zero too, and `Fraction(-0.0)` is 0
+            if isinstance(val, float) and val == 0 and math.copysign(1.0, val) < 0:
+                return SetFormat.from_value(NEG_ZERO)
             try:
                 return SetFormat.from_value(Fraction(val))
             except (ValueError, OverflowError):
